@@ -442,7 +442,7 @@ def run(ctx):
     ctx.log(f"{len(xgames)} short pawn-structure games for the bound monitor")
     # short games that END with an en-passant capture: the last-move analysis then has two forced last moves (capture + double push),
     # and the proof game the tool prints must still be a legal game (these finals go through -f and, first in line, through -f -o)
-    egames, _ = make_games(ctx, harness, driver, 60 if quick else 600, 0, style_pool=[66, 66, 67], short=True)
+    egames, _ = make_games(ctx, harness, driver, 500 if quick else 4000, 0, style_pool=[66, 66, 67], short=True)
     egames = [g for g in egames if g.stats["epcapat"] != "-" and str(len(g.moves) - 1) in g.stats["epcapat"].split(",")]
     ctx.log(f"{len(egames)} short games ending with an en-passant capture")
 
